@@ -26,7 +26,7 @@ use std::path::{Path, PathBuf};
 pub const META: PropertyMeta = PropertyMeta {
     id: "C13",
     level: "fault_enumeration",
-    rule: "the first 22 cases of a run cover every backend x victim-kind cell once, the others are drawn freely; for each generated case (backend x cipher, a pre-history of 1..8 content operations, one victim operation out of: secret create / update / delete / move, folder rename / flags / description / create / delete, compact folder, change folder password) the victim is first executed to completion on a copy to record the pre- and post-state of every event log and the ordered list of step-boundary probes it passes (probes sit before and after every log append, inside rewind / truncate / replace-all, inside the vault file header rewrite and splice, between each vault mutation and its event append, before the compaction replace); then EVERY (probe, hit) of that list is enumerated: a child process re-executes the victim on a fresh copy and is aborted at that point. Torn writes: for each pair of consecutive crash states, every file of the later state that extends the earlier one is truncated to byte prefixes of the appended region (first 6 and last 3 lengths plus a stride of 1/8 of the region in quick, every length for regions up to 4 KiB in thorough). Oracle on each abandoned directory through new_unauthenticated + sign_in: the account opens; every event log equals its pre- or its post-state; stored commits are the SHA-256 of their records; every served folder equals the replay of its log and its persisted mirror. Non-trivial = a crash point strictly inside the victim (not before its first or after its last write) or a truncation strictly inside an appended region. Distinct = distinct (case, crash point).",
+    rule: "the first 22 cases of a run cover every backend x victim-kind cell once, the others are drawn freely; for each generated case (backend x cipher, a pre-history of 1..8 content operations, one victim operation out of: secret create / update / delete / move, folder rename / flags / description / create / delete, compact folder, change folder password) the victim is first executed to completion on a copy to record the pre- and post-state of every event log and the ordered list of step-boundary probes it passes (probes sit before and after every log append, inside rewind / truncate / replace-all, inside the vault file header rewrite and splice, between each vault mutation and its event append, before the compaction replace); then EVERY (probe, hit) of that list is enumerated: a child process re-executes the victim on a fresh copy and is aborted at that point. Torn writes: for each pair of consecutive crash states, every file of the later state that extends the earlier one is truncated to byte prefixes of the appended region (first 6 and last 3 lengths plus a stride of 1/8 of the region in quick, every length for regions up to 4 KiB in thorough). System-call boundaries (file-system backend): the victim is also run under `strace -f` with a path filter on the account's event-log and vault files; a reference run lists the file-modifying system calls it issues (write, pwrite64, writev, ftruncate, rename*, unlink*; all file I/O of the child runs on one blocking thread so that the per-thread ordinals are stable), then one child per listed call is killed by an injected SIGKILL on ENTERING that call - the state between two system calls, which no probe marks when a change splits one write into several. Oracle on each abandoned directory through new_unauthenticated + sign_in: the account opens; every event log equals its pre- or its post-state; stored commits are the SHA-256 of their records; every served folder equals the replay of its log and its persisted mirror. Non-trivial = a crash point strictly inside the victim (not before its first or after its last write) or a truncation strictly inside an appended region. Distinct = distinct (case, crash point).",
     assumptions: &[
         "models process death (abort at a step boundary, page cache survives), not power loss: un-fsynced or reordered pages are out of scope",
         "crash points are the instrumented step boundaries plus byte prefixes of appended regions; a crash between two uninstrumented statements that both precede the next write is equivalent to the preceding boundary",
@@ -212,6 +212,9 @@ pub enum Point {
     Probe { name: String, nth: u64, seq: usize },
     /// state at trace position `seq` with `file` (relative) cut to `len` bytes of the state at `seq + 1`
     Torn { seq: usize, file: String, len: u64 },
+    /// the child is killed (SIGKILL injected by strace) on entering the `nth` file-modifying
+    /// system call the victim issues on a file of the account (counted from the victim's start)
+    Syscall { nth: usize },
 }
 
 #[derive(Clone, Debug, Serialize, Deserialize)]
@@ -337,6 +340,191 @@ fn crash_child(p: &Prepared, name: &str, nth: u64) -> Result<Option<tempfile::Te
     }
 }
 
+
+// ---------------------------------------------------------------------------
+// Crash points at system-call boundaries (file-system backend)
+// ---------------------------------------------------------------------------
+//
+// The probes sit where the code was written to have step boundaries. A change that splits one
+// write into several (or re-orders writes) creates crash states no probe marks. For the
+// file-system backend the child is therefore also run under `strace -f` with a path filter on
+// the account's files: a reference run lists the file-modifying system calls the victim issues
+// (write, pwrite64, writev, ftruncate, rename*, unlink*), then one child per listed call is
+// killed on ENTERING that call (`-e inject=<call>:signal=SIGKILL:when=<n>`), which leaves
+// exactly the state between two system calls. The child runs all file I/O on a single blocking
+// thread so that the per-thread call ordinals strace counts are the same in every run.
+
+const SYS_CALLS: &str = "write,pwrite64,writev,ftruncate,rename,renameat,renameat2,unlink,unlinkat";
+const SYS_MARKER: &str = ".sv-victim-start";
+
+#[derive(Clone, Debug)]
+struct SysEvent {
+    call: String,
+    /// ordinal of this call name on its thread, counted from the start of the process
+    ordinal: usize,
+    /// file the call addresses (relative to the data dir), when strace could name it
+    file: String,
+}
+
+fn strace_available() -> bool {
+    static OK: std::sync::OnceLock<bool> = std::sync::OnceLock::new();
+    *OK.get_or_init(|| {
+        std::process::Command::new("strace")
+            .args(["-f", "-o", "/dev/null", "-e", "trace=write", "-e", "inject=write:signal=SIGKILL:when=60000", "true"])
+            .stdin(std::process::Stdio::null())
+            .stdout(std::process::Stdio::null())
+            .stderr(std::process::Stdio::null())
+            .status()
+            .map(|s| s.success())
+            .unwrap_or(false)
+    })
+}
+
+fn tracked_files(dir: &Path) -> Vec<PathBuf> {
+    let mut v: Vec<PathBuf> = list_files(dir).into_iter().filter(|(rel, _)| rel.ends_with(".events") || rel.ends_with(".vault") || rel.ends_with(SYS_MARKER)).map(|(_, p)| p).collect();
+    v.sort();
+    v
+}
+
+fn sys_child_command(p: &Prepared, dir: &Path, strace_args: &[String]) -> std::process::Command {
+    let exe = std::env::current_exe().unwrap_or_else(|_| PathBuf::from("sv"));
+    let mut c = std::process::Command::new("strace");
+    c.arg("-f").arg("-y").arg("-qq");
+    for a in strace_args {
+        c.arg(a);
+    }
+    for f in tracked_files(dir) {
+        c.arg("-P").arg(f);
+    }
+    c.arg(exe)
+        .arg("crash-child-sys")
+        .arg(dir)
+        .arg(p.account_id.to_string())
+        .arg(&p.password)
+        .arg(serde_json::to_string(&p.op).unwrap())
+        .stdin(std::process::Stdio::null())
+        .stdout(std::process::Stdio::null())
+        .stderr(std::process::Stdio::null());
+    c
+}
+
+/// Reference run under strace: the victim's file-modifying system calls in order.
+fn sys_reference(p: &Prepared) -> Result<Option<Vec<SysEvent>>, Failure> {
+    let dir = tempfile::Builder::new().prefix("sv-sys-ref-").tempdir().map_err(hf("harness/tempdir", "tempdir"))?;
+    copy_dir(p.base.path(), dir.path()).map_err(hf("harness/copy", "copy sys ref dir"))?;
+    std::fs::write(dir.path().join(SYS_MARKER), b"").map_err(hf("harness/write", "marker"))?;
+    let log = dir.path().join(".sv-strace.log");
+    let st = sys_child_command(p, dir.path(), &["-o".into(), log.to_string_lossy().to_string(), "-e".into(), format!("trace={SYS_CALLS}")])
+        .status()
+        .map_err(hf("harness/spawn", "spawn strace reference"))?;
+    if !st.success() {
+        return Ok(None);
+    }
+    let text = std::fs::read_to_string(&log).unwrap_or_default();
+    let root = dir.path().to_string_lossy().to_string();
+    let mut per_thread: BTreeMap<(String, String), usize> = BTreeMap::new();
+    let mut events: Vec<(String, SysEvent)> = vec![];
+    let mut started = false;
+    for line in text.lines() {
+        // "<pid> <call>(<args>" ; unfinished/resumed pairs: count the entering line only
+        let mut it = line.splitn(2, ' ');
+        let (Some(pid), Some(rest)) = (it.next(), it.next()) else { continue };
+        let rest = rest.trim_start();
+        if rest.starts_with("<...") || rest.starts_with("+++") || rest.starts_with("---") {
+            continue;
+        }
+        let Some(par) = rest.find('(') else { continue };
+        let call = rest[..par].to_string();
+        if !SYS_CALLS.split(',').any(|c| c == call) {
+            continue;
+        }
+        let n = {
+            let e = per_thread.entry((pid.to_string(), call.clone())).or_default();
+            *e += 1;
+            *e
+        };
+        // first path below the data dir named on the line
+        let file = rest.find(&root).map(|i| rest[i + root.len()..].trim_start_matches('/').split(|c| c == '>' || c == '"' || c == ',').next().unwrap_or("").to_string()).unwrap_or_default();
+        if file.ends_with(SYS_MARKER) {
+            started = true;
+            events.clear();
+            continue;
+        }
+        if started {
+            events.push((pid.to_string(), SysEvent { call, ordinal: n, file }));
+        }
+    }
+    if !started {
+        return Ok(None);
+    }
+    // ordinals are per thread: only usable when one thread issued every call
+    let threads: BTreeSet<&String> = events.iter().map(|(pid, _)| pid).collect();
+    if threads.len() > 1 {
+        return Ok(None);
+    }
+    Ok(Some(events.into_iter().map(|(_, e)| e).collect()))
+}
+
+/// The abandoned directory of a child killed on entering `ev`.
+fn sys_crash_child(p: &Prepared, ev: &SysEvent) -> Result<Option<tempfile::TempDir>, Failure> {
+    let dir = tempfile::Builder::new().prefix("sv-sys-").tempdir().map_err(hf("harness/tempdir", "tempdir"))?;
+    copy_dir(p.base.path(), dir.path()).map_err(hf("harness/copy", "copy sys crash dir"))?;
+    std::fs::write(dir.path().join(SYS_MARKER), b"").map_err(hf("harness/write", "marker"))?;
+    let st = sys_child_command(
+        p,
+        dir.path(),
+        &["-o".into(), "/dev/null".into(), "-e".into(), format!("trace={}", ev.call), "-e".into(), format!("inject={}:signal=SIGKILL:when={}", ev.call, ev.ordinal)],
+    )
+    .status()
+    .map_err(hf("harness/spawn", "spawn strace child"))?;
+    let _ = std::fs::remove_file(dir.path().join(SYS_MARKER));
+    // strace exits with 128+9 (or is itself killed) when the tracee died of SIGKILL
+    use std::os::unix::process::ExitStatusExt;
+    if st.code() == Some(137) || st.signal() == Some(9) {
+        Ok(Some(dir))
+    } else {
+        Ok(None)
+    }
+}
+
+/// `sv crash-child-sys <dir> <account_id> <password> <op-json>`: file-system backend, every file
+/// operation on one blocking thread; writes the marker file right before the victim starts.
+pub fn crash_child_sys_main(args: &[String]) -> i32 {
+    if args.len() < 4 {
+        return 2;
+    }
+    init_process();
+    let dir = PathBuf::from(&args[0]);
+    let account_id: AccountId = match args[1].parse() {
+        Ok(a) => a,
+        Err(_) => return 2,
+    };
+    let password = args[2].clone();
+    let op: Concrete = match serde_json::from_str(&args[3]) {
+        Ok(o) => o,
+        Err(_) => return 2,
+    };
+    let rt = match tokio::runtime::Builder::new_current_thread().enable_all().max_blocking_threads(1).build() {
+        Ok(rt) => rt,
+        Err(_) => return 2,
+    };
+    rt.block_on(async move {
+        sos_core::verif::set_clock(Some((1_700_000_100i128 * 1_000_000_000, 1_000_003)));
+        let mut a = match open(&dir, false, account_id, &password).await {
+            Ok(a) => a,
+            Err(_) => return 3,
+        };
+        sos_core::verif::set_clock(Some(VICTIM_CLOCK));
+        if tokio::fs::write(dir.join(SYS_MARKER), b"go").await.is_err() {
+            return 3;
+        }
+        match execute(&mut a, &op).await {
+            Ok(()) => 0,
+            Err(_) => 4,
+        }
+    })
+}
+
 fn short_probe(name: &str) -> String {
     name.to_string()
 }
@@ -376,6 +564,9 @@ async fn check_dir(p: &Prepared, dir: &Path, what: &str, sigpart: &str, at_end: 
     let kind = p.op.kind();
     // the crash point goes into the message; the signature is violation x victim (x torn file kind)
     let tail = if let Some(t) = sigpart.strip_prefix("torn:") { format!("{kind}/torn-{t}") } else { kind.to_string() };
+    // a kill between two system calls inside the vault writer is the same root cause as a torn
+    // vault write: the vault file is rewritten in place
+    let sigpart = if sigpart == "sys:vault" { "torn:vault" } else { sigpart };
     let a = match open(dir, p.cfg.db, p.account_id, &p.password).await {
         Ok(a) => a,
         Err(e) => {
@@ -587,6 +778,32 @@ async fn run_case(c: &Case, tally: &mut Tally<'_>, exhaustive_limit: u64) -> Res
             }
         }
     }
+    // crash points at system-call boundaries (file-system backend)
+    if !p.cfg.db && strace_available() {
+        match sys_reference(&p)? {
+            None => {
+                *tally.rep.classes.entry("syscall-enumeration-skipped".into()).or_default() += 1;
+            }
+            Some(events) => {
+                let total = events.len();
+                for (i, ev) in events.iter().enumerate() {
+                    let Some(d) = sys_crash_child(&p, ev)? else {
+                        *tally.rep.classes.entry("syscall-point-not-reached-in-child".into()).or_default() += 1;
+                        continue;
+                    };
+                    let fkind = if ev.file.ends_with(".events") { "event-log" } else if ev.file.ends_with(".vault") { "vault" } else { "other" };
+                    let mut info = CaseInfo::default();
+                    info.class(format!("{be}/{}", p.op.kind()));
+                    info.class(format!("syscall/{}/{fkind}", ev.call));
+                    info.nontrivial = i > 0;
+                    let what = format!("system call #{} of {total} of the victim ({} on {}), killed on entering it", i + 1, ev.call, ev.file);
+                    let res = check_dir(&p, d.path(), &what, &format!("sys:{fkind}"), false).await;
+                    let pc = PointCase { case: c.clone(), point: Point::Syscall { nth: i } };
+                    tally.record(&pc, &info, res);
+                }
+            }
+        }
+    }
     Ok(())
 }
 
@@ -717,6 +934,19 @@ async fn replay_point(pc: &PointCase) -> CheckResult {
             std::fs::write(t.path().join(file), &b1[..(*len as usize).min(b1.len())]).map_err(hf("harness/write", "write"))?;
             let fkind = if file.ends_with(".events") { "event-log" } else if file.ends_with(".vault") { "vault" } else { "other" };
             check_dir(&p, t.path(), &format!("a torn write of {file} at {len} bytes"), &format!("torn:{fkind}"), false).await
+        }
+        Point::Syscall { nth } => {
+            let Some(events) = sys_reference(&p)? else {
+                return Err(Failure::new("harness/syscall-reference", "the reference run under strace did not yield a single-thread call list"));
+            };
+            let Some(ev) = events.get(*nth) else {
+                return Err(Failure::new("harness/syscall-not-listed", format!("the victim issues {} file-modifying system calls, #{nth} asked", events.len())));
+            };
+            let Some(d) = sys_crash_child(&p, ev)? else {
+                return Err(Failure::new("harness/probe-not-reached", "the child was not killed at the system call"));
+            };
+            let fkind = if ev.file.ends_with(".events") { "event-log" } else if ev.file.ends_with(".vault") { "vault" } else { "other" };
+            check_dir(&p, d.path(), &format!("system call #{} ({} on {}), killed on entering it", nth + 1, ev.call, ev.file), &format!("sys:{fkind}"), false).await
         }
     }
 }
